@@ -188,12 +188,40 @@ class Path:
     if z3.is_false(z):
       return False
     if self.no_fork:
-      raise Unsupported('fork inside a quantifier/spec expression')
+      # inside a quantifier body no fork is possible: the condition must be
+      # decided by the path condition (plus the bound variable's range).
+      self.solver.push()
+      self.solver.add(z3.Not(z))
+      r = self.solver.check()
+      self.solver.pop()
+      if r == z3.unsat:
+        return True
+      self.solver.push()
+      self.solver.add(z)
+      r = self.solver.check()
+      self.solver.pop()
+      if r == z3.unsat:
+        return False
+      raise Unsupported('undetermined branch inside a quantifier/spec expression')
     known = len(self.trail) < len(self.prefix) - 1
     c = self.decide(2, 'br')
     taken = (c == 0)
     self.assume(z if taken else z3.Not(z), check=not known)
     return taken
+
+  def scoped(self, z):
+    """Context manager: temporarily adds z to the solver (not to pc)."""
+    path = self
+
+    class _S:
+      def __enter__(self_):
+        path.solver.push()
+        path.solver.add(z)
+
+      def __exit__(self_, *a):
+        path.solver.pop()
+        return False
+    return _S()
 
   def fresh_int(self, name='i'):
     z = z3.Int(fresh_name(name))
@@ -835,6 +863,8 @@ class Interp:
     else:
       seq = SymIter.of(it)
     assigned = _assigned_names(s.body) | _target_names(s.target)
+    if _assigned_names(s.body) - _target_names(s.target):
+      raise Unsupported(f'symbolic-length loop assigns locals without an invariant ({frame.name})')
     if _has_heap_write(s.body):
       raise Unsupported(f'symbolic-length loop writes the heap without an invariant ({frame.name})')
     live_after = getattr(s, '_pyvc_live_after', None)
@@ -878,8 +908,9 @@ class Interp:
       saved = dict(frame.locals)
       interp.path.no_fork += 1
       try:
-        interp.assign(s.target, seq.item(interp, j), frame)
-        return interp._completes_expr(s.body, frame)
+        with interp.path.scoped(z3.And(j >= 0, j < seq.length(interp))):
+          interp.assign(s.target, seq.item(interp, j), frame)
+          return interp._completes_expr(s.body, frame)
       finally:
         interp.path.no_fork -= 1
         frame.locals.clear()
@@ -1115,17 +1146,26 @@ class Interp:
     if frame.spec_mode or self.path.no_fork:
       # merged evaluation: every operand must be boolean-like
       zs = []
-      for x in e.values:
-        v = self.eval(x, frame)
-        z = self.truth_z(v)
-        if isinstance(z, bool):
-          if is_and and not z:
-            return self._bool_result(zs + [False], is_and)
-          if (not is_and) and z:
-            return self._bool_result(zs + [True], is_and)
-          continue
-        zs.append(z)
-      return self._bool_result(zs, is_and)
+      pushed = 0
+      try:
+        for x in e.values:
+          v = self.eval(x, frame)
+          z = self.truth_z(v)
+          if isinstance(z, bool):
+            if is_and and not z:
+              return self._bool_result(zs + [False], is_and)
+            if (not is_and) and z:
+              return self._bool_result(zs + [True], is_and)
+            continue
+          zs.append(z)
+          # later operands are evaluated under the short-circuit assumption
+          self.path.solver.push()
+          self.path.solver.add(z if is_and else z3.Not(z))
+          pushed += 1
+        return self._bool_result(zs, is_and)
+      finally:
+        for _ in range(pushed):
+          self.path.solver.pop()
     v = None
     for i, x in enumerate(e.values):
       v = self.eval(x, frame)
@@ -1320,6 +1360,10 @@ class Interp:
       r = h(self, op, a, b, frame)
       if r is not NotImplemented:
         return r
+    if op in (ast.Eq, ast.NotEq):
+      r = self._concrete_dunder_eq(op, a, b, frame)
+      if r is not NotImplemented:
+        return r
     if isinstance(a, SAny) or isinstance(b, SAny):
       return self.opaque_compare(op, a, b)
     num = (SInt, SReal, int, float)
@@ -1378,6 +1422,17 @@ class Interp:
       if ka and kb and ka != kb:
         return op is ast.NotEq
     raise Unsupported(f'compare {op.__name__} on {a!r}, {b!r}')
+
+  def _concrete_dunder_eq(self, op, a, b, frame):
+    """`==` where one side is a concrete instance of a class with a
+    Python-level __eq__ that the policy inlines (e.g. MISSING_VALUE)."""
+    for x, y in ((a, b), (b, a)):
+      if is_concrete(x) and not isinstance(x, (int, float, str, bool, type(None), tuple, list, dict, type)):
+        fn = getattr(type(x), '__eq__', None)
+        if isinstance(fn, types.FunctionType) and func_key(fn) in self.policy.inline:
+          r = self.call_function(fn, [x, y])
+          return r if op is ast.Eq else self.not_(r)
+    return NotImplemented
 
   def obj_eq(self, op, a, b, frame):
     obj, other = (a, b) if isinstance(a, SObj) else (b, a)
